@@ -102,6 +102,27 @@ def history_differs(cls, method, args, kw, primers):
     return False
 
 
+def inplace_history_differs(cls, method, args, kw, idx, other):
+    """True if calling method(*args) on an instance that first served the same call with argument `idx` holding `other`
+    in the *same array object* (then overwritten in place with the present values) differs bit-wise from a fresh instance:
+    anything that recognises an array by identity instead of by content shows"""
+    args = list(args)
+    target = np.array(args[idx], dtype=float)
+    ref = getattr(fresh(cls), method)(*[target.copy() if i == idx else a for i, a in enumerate(args)], **kw)
+    buf = np.array(other, dtype=float)
+    if buf.shape != target.shape:
+        return False
+    used = fresh(cls)
+    a1 = [buf if i == idx else a for i, a in enumerate(args)]
+    try:
+        getattr(used, method)(*a1, **kw)
+    except Exception:  # noqa: BLE001
+        pass
+    buf[...] = target
+    got = getattr(used, method)(*a1, **kw)
+    return not bits_equal(tuple(ref) if isinstance(ref, (tuple, list)) else ref, tuple(got) if isinstance(got, (tuple, list)) else got)
+
+
 _API = None
 
 
